@@ -103,6 +103,8 @@ type Stats struct {
 	EmptySlice  bool // an empty non-nil sequence/map (decodes as nil: documented normalisation)
 	ClampedComp int  // component lengths clamped below 253 because of the C03 defect
 	MapMulti    bool // a map with >= 2 keys (encoding order is Go's map order)
+	// StrippedDigest counts trailing digest components removed from generated Interest names
+	StrippedDigest int
 }
 
 type gen struct {
@@ -124,11 +126,35 @@ func Gen(t *rapid.T, st *State, m *Model, opts GenOpts) Node {
 var lenChoices = []int{0, 0, 1, 1, 1, 2, 3, 4, 7, 8, 31, 32, 252, 253, 254, 255, 256, 300}
 var lenChoicesThorough = []int{0, 1, 1, 2, 3, 8, 32, 252, 253, 254, 255, 256, 300, 65535, 65536, 65537}
 
+// Uniform draws an index in [0, n) without rapid's bias towards small values (rapid's integer
+// and SampledFrom generators favour the first entries; boundary tables and the model list must
+// be hit evenly). It still goes through rapid (bits drawn with rapid.Bool), so cases replay and
+// shrink as usual.
+func Uniform(t *rapid.T, n int, label string) int {
+	if n <= 1 {
+		return 0
+	}
+	bitsN := 3
+	for 1<<uint(bitsN-3) < n {
+		bitsN++
+	}
+	v := 0
+	for _, b := range rapid.SliceOfN(rapid.Bool(), bitsN, bitsN).Draw(t, label) {
+		v <<= 1
+		if b {
+			v |= 1
+		}
+	}
+	return v % n
+}
+
+func pick[T any](t *rapid.T, xs []T, label string) T { return xs[Uniform(t, len(xs), label)] }
+
 func (g *gen) length(label string) int {
 	if g.opts.Thorough {
-		return rapid.SampledFrom(lenChoicesThorough).Draw(g.t, label)
+		return pick(g.t, lenChoicesThorough, label)
 	}
-	return rapid.SampledFrom(lenChoices).Draw(g.t, label)
+	return pick(g.t, lenChoices, label)
 }
 
 func (g *gen) byteNode(label string, n int) Node {
@@ -148,7 +174,7 @@ func (g *gen) nat(label string, bits int) uint64 {
 	if rapid.IntRange(0, 3).Draw(g.t, label+"?") == 0 {
 		v = rapid.Uint64().Draw(g.t, label)
 	} else {
-		v = rapid.SampledFrom(natChoices).Draw(g.t, label)
+		v = pick(g.t, natChoices, label)
 	}
 	if bits < 64 {
 		// keep boundary values meaningful for narrow fields: saturate instead of wrapping
@@ -167,11 +193,11 @@ func (g *gen) nat(label string, bits int) uint64 {
 var compTypes = []uint64{8, 8, 8, 8, 1, 2, 3, 32, 50, 52, 54, 56, 58, 252, 253, 254, 65535, 65536}
 
 func (g *gen) name(label string, interest bool) Node {
-	n := rapid.SampledFrom([]int{0, 1, 1, 2, 2, 3, 4, 8}).Draw(g.t, label+"#")
+	n := pick(g.t, []int{0, 1, 1, 2, 2, 3, 4, 8}, label+"#")
 	out := Node{K: make([]Node, 0, n)}
 	for i := 0; i < n; i++ {
-		typ := rapid.SampledFrom(compTypes).Draw(g.t, "ctyp")
-		l := rapid.SampledFrom([]int{0, 1, 1, 2, 3, 8, 31, 32, 252, 253, 300}).Draw(g.t, "clen")
+		typ := pick(g.t, compTypes, "ctyp")
+		l := pick(g.t, []int{0, 1, 1, 1, 2, 3, 3, 8, 8, 31, 32, 252, 253, 300}, "clen")
 		if l >= 253 && !BigComponentsOK() {
 			l = 252
 			g.stats.ClampedComp++
@@ -182,6 +208,15 @@ func (g *gen) name(label string, interest bool) Node {
 		c := g.byteNode("cval", l)
 		c.U = typ
 		out.K = append(out.K, c)
+	}
+	if interest {
+		// the trailing ParametersSha256Digest component of an Interest name is an output of
+		// the encoder (Init removes it and, with needDigest, appends a fresh one), not part
+		// of the input value
+		for len(out.K) > 0 && out.K[len(out.K)-1].U == 2 {
+			out.K = out.K[:len(out.K)-1]
+			g.stats.StrippedDigest++
+		}
 	}
 	return out
 }
@@ -349,7 +384,7 @@ func (g *gen) field(label string, ft reflect.Type, fi *Field, depth int, force b
 		for i := 0; i < n; i++ {
 			var k Node
 			if ft.Key().Kind() == reflect.String {
-				k = g.byteNode(label+"k", rapid.SampledFrom([]int{0, 1, 2, 3, 8, 252, 253}).Draw(g.t, "klen"))
+				k = g.byteNode(label+"k", pick(g.t, []int{0, 1, 1, 2, 3, 3, 8, 252, 253}, "klen"))
 			} else {
 				k = Node{U: g.nat(label+"k", ft.Key().Bits())}
 			}
